@@ -17,4 +17,5 @@ import (
 	_ "verif/harness/checks/c16"
 	_ "verif/harness/checks/c17"
 	_ "verif/harness/checks/c18"
+	_ "verif/harness/checks/c19"
 )
